@@ -412,6 +412,51 @@ impl<'a> CapVisitor for RunF3<'a> {
     }
 }
 
+/// F3 over a source iterator that is NOT fused: after its first None it yields `after` (a complete further
+/// frame). The input ended at the first None, so nothing but None may come out of the decode iterator then.
+pub fn run_f3_unfused(s: &[u8], after: &[u8], extra_calls: usize) -> F3Out {
+    struct Src2 {
+        a: Vec<u8>,
+        b: Vec<u8>,
+        pos: usize,
+    }
+    impl Iterator for Src2 {
+        type Item = u8;
+        fn next(&mut self) -> Option<u8> {
+            let p = self.pos;
+            self.pos += 1;
+            if p < self.a.len() {
+                Some(self.a[p])
+            } else if p == self.a.len() {
+                None
+            } else {
+                self.b.get(p - self.a.len() - 1).copied()
+            }
+        }
+    }
+    let mut di = decode_streaming::<Vec<u8>>(Src2 { a: s.to_vec(), b: after.to_vec(), pos: 0 });
+    let mut log = Log::new();
+    let mut n = 0;
+    loop {
+        match di.next() {
+            None => break,
+            Some(Ok(p)) => log.push((n, TEv::Ok(p.to_vec()))),
+            Some(Err(e)) => log.push((n, TEv::Err(DErr::of(&e)))),
+        }
+        n += 1;
+        if n > s.len() + 4 {
+            break;
+        }
+    }
+    let mut late = Vec::new();
+    for k in 0..extra_calls {
+        if let Some(r) = di.next() {
+            late.push(format!("call +{} after None: {:?}", k + 1, r.map(|p| p.to_vec())));
+        }
+    }
+    F3Out { log, late }
+}
+
 pub fn run_f3(k: BufKind, s: &[u8], extra_calls: usize) -> F3Out {
     dispatch_buf(k, RunF3 { s, extra_calls })
 }
